@@ -355,8 +355,7 @@ package rapid
 //@   ensures [C03] len(result) == len(g.slice)
 //@   panics invalidData: true
 //@   modifies drawn
-//@   loop 0 invariant [C03] repeatInv(repeat) && groupUsed(repeat) && i == repeat.count && repeat.maxCount == m && len(s) == n && n == len(g.slice)
-//@   loop 0 invariant [C03] m == ite(n - 1 < 0, 0, n - 1)
+//@   loop 0 invariant [C03] repeatInv(repeat) && groupUsed(repeat) && i == repeat.count && repeat.maxCount == ite(n - 1 < 0, 0, n - 1) && len(s) == n && n == len(g.slice)
 
 //@ func (*boolGen).value
 //@   immutable g
@@ -646,6 +645,7 @@ package rapid
 //@   requires [C08] t.failed == "" && unlocked(t)
 //@   ensures [C02,C08] t.failed == "" && unlocked(t) && drawn >= old(drawn)
 //@   ensures [C08] now(n) < validActionTries
+//@   ensures [C08] result == !now(invalid) && !now(skipped)
 //@   panics any [C08]: true
 //@   modifies drawn, t.failed, t.cleanups, elems(t.cleanups), t.ctx, t.cancelCtx, t.draws, lockmode[addr(t.mu)], stream(t.s)
 //@   loop 0 invariant [C08] 0 <= n && n <= validActionTries && t.failed == "" && unlocked(t) && drawn >= old(drawn)
@@ -679,21 +679,26 @@ package rapid
 //@ ghost runs (_ BitVec 64)
 //@ ghost lastInit (_ BitVec 64)
 //@ ghost searched Bool
+//@ ghost sawFailure Bool
 
 //@ func findBug
 //@   noframe "runs the property"
 //@   requires [C09] 0 <= checks && checks <= math.MaxInt/10
 //@   requires [C11] prop != nil
+//@   requires [C02] !sawFailure
 //@   ensures [C09] 0 <= result0 && 0 <= result1 && result0 <= checks && result1 <= checks*10
 //@   ensures [C09] implies(result4 == nil && !result2, result0 == checks || result1 == checks*10)
 //@   ensures [C09] runs - old(runs) == result0 + result1 + ite(result4 != nil, 1, 0)
 //@   ensures [C01,C02,C11] implies(result4 != nil, !isInvalidData(result4.data) && fresh(result4))
 //@   ensures [C07] implies(result4 != nil, result3 == lastInit) && implies(result4 == nil, result3 == 0)
 //@   ensures [C09] implies(result2, result4 == nil)
-//@   modifies heap, drawn, runs, lastInit, lockmode, cancelled
+//@   ensures [C01,C02] sawFailure == (result4 != nil)
+//@   modifies heap, drawn, runs, lastInit, sawFailure, lockmode, cancelled
 //@   at r.init#0 assert [C07] implies(valid + invalid == 0, arg0 == old(seed))
 //@   at r.init#0 set lastInit = arg0
 //@   at checkOnce#0 set runs = runs + 1
+//@   at checkOnce#0 set sawFailure = result != nil && !isInvalidData(result.data)
+//@   loop 0 invariant [C02] !sawFailure
 //@   loop 0 invariant [C09] 0 <= valid && valid <= checks && 0 <= invalid && invalid <= checks*10 && runs - old(runs) == valid + invalid
 //@   loop 0 invariant [C11] clean(t) && unlocked(t) && fresh(t)
 //@   loop 0 invariant [C07] implies(valid + invalid == 0, seed == old(seed))
@@ -712,6 +717,7 @@ package rapid
 //@   requires [C17] prop != nil
 //@   ensures [C17] tbFailed == old(tbFailed) && tbErrors == old(tbErrors)
 //@   ensures [C17] implies(result1 != nil || result2 != nil, result1 != nil && !isInvalidData(result1.data))
+//@   ensures [C17] implies(now(err) != nil || now(version) != rapidVersion, result1 == nil && result2 == nil && len(result0) == 0)
 //@   modifies heap, drawn, lockmode, cancelled
 
 // saveFailFile (C16): every crash point leaves either no file under the final name or a complete one.
@@ -722,7 +728,7 @@ package rapid
 //@   ensures [C16] implies(result == nil, fsRenamed)
 //@   ensures [C16] implies(fsRenamed != old(fsRenamed), fsClosed)
 //@   modifies fsWritten, fsClosed, fsRenamed, fsTmpName, fsTmpDir, fsRenamedAtCreate
-//@   at os.CreateTemp#0 assert [C16] arg1 == failfileTmpPattern && arg0 == dir
+//@   at os.CreateTemp#0 assert [C06,C16] arg1 == ".rapid-failfile-tmp-*" && arg0 == dir
 //@   at os.Rename#0 assert [C16] fsClosed && arg0 == fsTmpName && arg1 == filename && fsTmpDir == dir
 //@   loop 0 invariant [C16] !fsClosed && fsRenamed == old(fsRenamed) && fsRenamed == fsRenamedAtCreate && fsTmpDir == dir && -1 <= rangeindex && rangeindex < len(out)
 //@   loop 1 invariant [C16] !fsClosed && fsRenamed == old(fsRenamed) && fsRenamed == fsRenamedAtCreate && fsTmpDir == dir && -1 <= rangeindex && rangeindex < len(buf)
@@ -744,13 +750,13 @@ package rapid
 //@ func doCheck
 //@   noframe "runs the property"
 //@   requires [C09] 0 <= checks && checks <= math.MaxInt/10
-//@   requires [C17] prop != nil && !tbFailed && !searched
+//@   requires [C17] prop != nil && !tbFailed && !searched && !sawFailure
 //@   ensures [C06,C17] implies(searched, result4 == "")
 //@   ensures [C06] implies(result4 != "", result0 == 0 && result1 == 0 && !result2 && result3 == 0 && (result6 != nil || result7 != nil))
 //@   ensures [C07] implies(searched && (result6 != nil || result7 != nil), result3 == lastInit)
 //@   ensures [C09] implies(result6 == nil && result7 == nil, searched && result3 == 0 && result4 == "")
 //@   ensures [C02,C17] tbFailed == old(tbFailed) && tbErrors == old(tbErrors)
-//@   modifies heap, drawn, runs, lastInit, searched, lockmode, cancelled
+//@   modifies heap, drawn, runs, lastInit, searched, sawFailure, lockmode, cancelled
 //@   at findBug#0 assert [C17] seed == old(seed) && checks == old(checks) && !tbFailed
 //@   at findBug#0 set searched = true
 //@   at newRandomBitStream#0 assert [C07] arg0 == lastInit && arg1
@@ -769,12 +775,12 @@ package rapid
 //@   noframe "runs the property"
 //@   assumes "the -rapid.checks flag lies in [0, MaxInt/10] (9.2e17), so that checks*10 does not wrap"
 //@   requires [C09] 0 <= flags.checks && flags.checks <= math.MaxInt/10
-//@   requires [C02] prop != nil && !tbFailed && !searched
+//@   requires [C02] prop != nil && !tbFailed && !searched && !sawFailure
 //@   ensures [C02,C09] !tbFailed && now(err1) == nil && now(err2) == nil
 //@   ensures [C09] now(valid) == now(checks) || now(earlyExit) && now(valid) > 0
 //@   ensures [C09] tbErrors == old(tbErrors)
 //@   panics goexit [C02,C09]: tbFailed && tbErrors == old(tbErrors) + 1
-//@   modifies heap, drawn, runs, lastInit, searched, lockmode, cancelled, tbFailed, tbErrors, fsWritten, fsClosed, fsRenamed, fsTmpName, fsTmpDir, fsRenamedAtCreate, runesWritten
+//@   modifies heap, drawn, runs, lastInit, searched, sawFailure, lockmode, cancelled, tbFailed, tbErrors, fsWritten, fsClosed, fsRenamed, fsTmpName, fsTmpDir, fsRenamedAtCreate, runesWritten
 //@   at saveFailFile#0 assert [C06] arg3 == seed && arr(arg4) == arr(buf) && len(arg4) == len(buf) && arg1 == rapidVersion
 //@   at newBufBitStream#0 assert [C01,C06] arr(arg0) == arr(buf) && len(arg0) == len(buf) && !arg1
 //@   at captureTestOutput#0 assert [C06] arr(arg2) == arr(buf) && len(arg2) == len(buf)
@@ -1034,3 +1040,11 @@ package rapid
 //@   at repeat.reject#0 set rejectedAttempt = true
 //@   at m.SetMapIndex#0 assert [C04] !rejectedAttempt
 //@   loop 0 invariant [C04] repeatInv(repeat) && groupUsed(repeat)
+
+//@ func genUintNNoReject@reach
+//@   given v (_ BitVec 64)
+//@   requires [C18] v <= max
+//@   ensures [C18] result == v
+//@   panics invalidData: true
+//@   modifies drawn, lastWord
+//@   at s.drawBits#0 assume result == v
